@@ -160,6 +160,16 @@ def pointwise_task(key):
                         if float(val) < -1e-15 * self_scale or not math.isfinite(float(val)):
                             rec['scale'] = self_scale
                             out['viols'].append(('negative', rec))
+                        elif not float(val) > 0:
+                            # causal and not positive: only allowed when the exact value is in the underflow range
+                            xpt = x + np.array([[0.013], [0.007]]) if fn == 'potential' else x
+                            refv = oracle.pointwise(t, tr.time_interval, tr.space_interval, orc.piece(tr), xpt,
+                                                    xhat=xh if (fn != 'potential' and xa < xh < xb) else None)
+                            out['positivity_checks'] = out.get('positivity_checks', 0) + 1
+                            if refv > 1e-250:
+                                rec['reference'] = refv
+                                rec['regime'] = 'h_x^2/tau>16' if (xb - xa)**2 > 16 * (t - a) else 'h_x^2/tau<=16'
+                                out['viols'].append(('causal-not-positive', rec))
     # evaluate_vector: zero exactly for every element that starts at or after t, equal to evaluate otherwise
     m = U[max(U)][0]
     SLm = universe.make_SL(key[0], False, key[1])
@@ -333,7 +343,7 @@ def run(ctx):
         nP += r['n']
         zP += r['zero_checks']
         for tag, v in r['viols']:
-            ctx.violation({'clause': 'pointwise', 'tag': tag, 'curve': key[0], 'fn': v.get('fn')}, 'pointwise {}: {}'.format(tag, v), dict(v, clause='pointwise'))
+            ctx.violation(dict({'clause': 'pointwise', 'tag': tag, 'curve': key[0], 'fn': v.get('fn')}, **({'regime': v['regime']} if v.get('regime') else {})), 'pointwise {}: {}'.format(tag, v), dict(v, clause='pointwise'))
     mitems = []
     for cfgname, d in GRAPHS[ctx.tier].items():
         for h in meshmc.all_states(ctx, cfgname, d, key='leaf'):
